@@ -7,12 +7,16 @@ From Coq Require Import List NArith ZArith Bool Arith.
 From Xr Require Import Ty.Types Ty.TypesProofs Ty.Sound Ty.SoundProofs.
 Import ListNotations.
 
-Theorem C01_soundness : forall fuel e t, tc [] e = Some t ->
+(* FULL STATEMENT (not proved as a whole): every program the COMPILER accepts, over the whole language and library, runs
+   without the INTERPRETER failing.  PROVED: the statement for the checker and evaluator of the core calculus below;
+   the compiler and interpreter are tied to them by the correspondence of props/c01.py; everything outside the calculus
+   is covered by the no-crash sweep only.  Hence the suffix _partial. *)
+Theorem C01_soundness_partial : forall fuel e t, tc [] e = Some t ->
   match eval fuel VNil e with Val v => shape v t | Stuck => False | OutOfFuel => True end.
 Proof. exact soundness. Qed.
 
 (* open form: in any environment of the right shapes, for expressions and for argument lists *)
-Theorem C01_soundness_open : forall fuel,
+Theorem C01_soundness_open_partial : forall fuel,
   (forall e G env t, tc G e = Some t -> env_shape env G -> ok_res (eval fuel env e) t) /\
   (forall es G env ts, tcs G es = Some ts -> env_shape env G -> ok_ress (evals fuel env es) ts).
 Proof. exact soundness_both. Qed.
@@ -43,8 +47,8 @@ Example C01_instances :
   eval 10 VNil (EApp inc ENil) = Stuck /\ eval 10 VNil (EApp inc (ECons (EBool true) ENil)) = Stuck.
 Proof. vm_compute. repeat split; reflexivity. Qed.
 
-Print Assumptions C01_soundness.
-Print Assumptions C01_soundness_open.
+Print Assumptions C01_soundness_partial.
+Print Assumptions C01_soundness_open_partial.
 Print Assumptions C01_assignable_is_safe.
 Print Assumptions C01_bottom_is_uninhabited.
 Print Assumptions C01_instances.
